@@ -246,6 +246,83 @@ fn space(g: Gen) -> Space {
     )
 }
 
+/// The walk that starts from a context continues in the memory that context's stack pointer
+/// lies in: every thread's call stack has the frames its starting region encodes.
+fn check_walks(sm: &StackM, st: &ProcessState, l: &mut Local) {
+    let d = || json!({"model": sm.summary()});
+    if st.threads.len() != sm.model.threads.len() {
+        return; // reported by check_index
+    }
+    for (i, s) in st.threads.iter().enumerate() {
+        let (which, loc, r) = sm.start_of(i);
+        let region = &sm.regions[r];
+        let place = if loc == SpLoc::Own { "sp-in-own-stack" } else { "sp-in-another-region" };
+        let got0 = s.frames.first().map(|f| f.context.get_stack_pointer());
+        if got0 != Some(region.sp) {
+            continue; // the walk did not start where the model says: reported by check_index (frame0:*)
+        }
+        l.outcome(&format!("walk:{which}:{place}"));
+        l.distinct(&("walk", which, format!("{loc:?}"), sm.layout, sm.model.cpu, region.returns.len(), sm.own[i] == r));
+        let want = 1 + region.returns.len();
+        if s.frames.len() != want {
+            l.violation(
+                format!("c14:walk:frame-count:{which}:{place}"),
+                format!(
+                    "thread {i} (id {}): {} frame(s); its walk starts from the {which} with sp {:#x} in the region at {:#x} ({loc:?}; the thread's stack descriptor names the region at {:#x}), which encodes {} caller(s) {:x?} ({:?} layout)",
+                    s.thread_id,
+                    s.frames.len(),
+                    region.sp,
+                    region.base,
+                    sm.regions[sm.own[i]].base,
+                    region.returns.len(),
+                    region.returns,
+                    sm.layout
+                ),
+                d(),
+            );
+            continue;
+        }
+        for (k, f) in s.frames.iter().skip(1).enumerate() {
+            let got = (f.context.get_instruction_pointer(), f.context.get_stack_pointer());
+            let exp = (region.returns[k], region.caller_sps[k]);
+            if got != exp {
+                l.violation(
+                    format!("c14:walk:caller:{which}:{place}"),
+                    format!("thread {i} (id {}): caller frame {} has (return address, sp) = {got:x?}, the region at {:#x} the {which} points into encodes {exp:x?} ({:?} layout)", s.thread_id, k + 1, region.base, sm.layout),
+                    d(),
+                );
+                break;
+            }
+            if f.trust == FrameTrust::Context {
+                l.violation(format!("c14:walk:caller-trust:{which}"), format!("thread {i}: caller frame {} has trust Context", k + 1), d());
+            }
+        }
+    }
+}
+
+fn stack_space(g: StackGen) -> Space {
+    let g2 = g.clone();
+    let g3 = g.clone();
+    Space::new(
+        g.name,
+        g.len,
+        move |idx, l| {
+            let sm = (g2.model)(idx);
+            l.eval();
+            match process_bytes(&build_stacks(&sm), &[]) {
+                Proc::Ok(st) => {
+                    check_index(&sm.model, &st, l);
+                    check_walks(&sm, &st, l);
+                }
+                Proc::ProcessErr(e) => l.violation("c14:process:error", format!("processing a well-formed generated dump failed: {e}"), json!({"model": sm.summary()})),
+                Proc::ReadErr(e) => panic!("c14 generator produced an unreadable dump: {e} ({:?})", sm),
+                Proc::Panic(p) => l.panic_violation(&p, json!({"model": sm.summary()})),
+            }
+        },
+        move |idx| json!({"class": g3.name, "model": (g3.model)(idx).summary()}),
+    )
+}
+
 fn main() {
     run_check("C14", |ctx| {
         let mut def = CheckDef::new(
